@@ -1,7 +1,7 @@
 (* extraction of the generator grammar G (C02): the harness gets texts, tokens and expected models from the SAME
    Coq definitions the theorems of props/C02.v speak about.  Directives: ExtrOcamlBasic only. *)
 From Coq Require Import ExtrOcamlBasic.
-From CssV Require Import Base Tokenizer Selector Grammar GrammarFacts.
+From CssV Require Import Base Tokenizer Selector Grammar GrammarFacts GrammarWf.
 Definition g_render := Grammar.render.
 Definition g_text_of := Grammar.text_of.
 Definition g_expected := Grammar.expected_model.
@@ -17,4 +17,5 @@ Definition g_delimited := GrammarFacts.delimited.
 Definition g_inert (sh : Grammar.sheet) (lay : Grammar.layout) : bool := GrammarFacts.inert_b (Grammar.render sh lay).
 Definition g_order (sh : Grammar.sheet) (lay : Grammar.layout) : bool :=
   forallb (fun b => b) (GrammarFacts.orun 0 (GrammarFacts.events sh lay)).
-Extraction "grammar_model.ml" g_delimited g_inert g_order g_render g_text_of g_expected g_expected_nc g_tok_ok g_sel_ok g_well_ordered g_strip g_declared.
+Definition g_wf := GrammarWf.wf_sheet.       (* AST-level well-formedness: the hypothesis of delimited_of_wf *)
+Extraction "grammar_model.ml" g_wf g_delimited g_inert g_order g_render g_text_of g_expected g_expected_nc g_tok_ok g_sel_ok g_well_ordered g_strip g_declared.
